@@ -19,6 +19,8 @@ MCData1 == {"d1"}
 HIdxTiny == {0, 2}
 MCTypes == {"remote.TestMessage", "actor.Ping", "actor.PID"}
 MCTypesReg == {"actor.PID"}
+\* two protobuf types defined at run time: one Go type (*dynamicpb.Message) behind both
+MCTypesDyn == {"verifdyn.Label", "verifdyn.Reading"}
 MCDataBig == {"d1", "big"}
 MCData == {"d1", "d2"}
 \* hostile envelope space
